@@ -3,6 +3,7 @@ SER = "hippolyzer/lib/base/message/udpserializer.py"
 DES = "hippolyzer/lib/base/message/udpdeserializer.py"
 MSG = "hippolyzer/lib/base/message/message.py"
 PACK = "hippolyzer/lib/base/message/data_packer.py"
+DT = "hippolyzer/lib/base/datatypes.py"
 
 _TRY_EXCEPT = (
     "        try:\n"
@@ -231,6 +232,46 @@ VARIANTS = [
          "new": "        _packer = functools.partial(_pack_all, struct_obj)\n"},
         {"file": PACK, "old": "def _make_tuplecoord_spec(",
          "new": "def _pack_all(struct_obj, x):\n    return struct_obj.pack(*[round(c, 4) for c in x])\n\n\ndef _make_tuplecoord_spec("}]},
+    # ------------------------------------------------------------------ R6 unpack side / R7 verbatim storage
+    {"name": "R6 Vector4 constructor clamps its components", "file": DT, "expect": "C02.R6",
+     "old": "        self.W = float(W)\n\n    def data(self, wanted_components=None):\n        return self.X, self.Y, self.Z, self.W",
+     "new": "        self.W = max(-1e30, min(1e30, float(W)))\n\n    def data(self, wanted_components=None):\n        return self.X, self.Y, self.Z, self.W"},
+    {"name": "R6 Quaternion constructor scrubs NaN from the wire components", "file": DT, "expect": "C02.R6",
+     "old": "    def __init__(self, X=0.0, Y=0.0, Z=0.0, W=None):\n        super().__init__()\n        self.X = float(X)\n",
+     "new": "    def __init__(self, X=0.0, Y=0.0, Z=0.0, W=None):\n        super().__init__()\n        self.X = 0.0 if X != X else float(X)\n"},
+    {"name": "P R6 Quaternion keeps its derived W computation", "file": DT, "expect": "silent",
+     "old": "            t = 1.0 - (X * X + Y * Y + Z * Z)\n", "new": "            sq = X * X + Y * Y + Z * Z\n            t = 1.0 - sq\n"},
+    {"name": "R7 Block.__setitem__ strips strings", "file": MSG, "expect": "C02.R7",
+     "old": "            value = int(value)\n\n        self.vars[key] = value\n",
+     "new": "            value = int(value)\n        if isinstance(value, str):\n            value = value.strip()\n\n        self.vars[key] = value\n"},
+    {"name": "R7 Block.__setitem__ stores a normalised copy", "file": MSG, "expect": "C02.R7",
+     "old": "        self.vars[key] = value\n        # Invalidate", "new": "        self.vars[key] = value.rstrip(b\"\\x00\") if isinstance(value, bytes) else value\n        # Invalidate"},
+    {"name": "P R7 enum normalisation written as a guard clause pair", "file": MSG, "expect": "silent",
+     "old": "        if isinstance(value, (enum.IntEnum, enum.IntFlag)):\n            value = int(value)\n",
+     "new": "        is_enum = isinstance(value, (enum.IntEnum, enum.IntFlag))\n        if isinstance(value, (enum.IntEnum, enum.IntFlag)) and is_enum:\n            value = int(value)\n"},
+    {"name": "R7 Message.acks becomes a de-duplicating property", "expect": "C02.R7", "edits": [
+        {"file": MSG, "old": '__slots__ = ("name", "send_flags", "packet_id", "acks",', "new": '__slots__ = ("name", "send_flags", "packet_id", "_acks",'},
+        {"file": MSG, "old": "    @property\n    def extra(self) -> bytes:\n",
+         "new": "    @property\n    def acks(self):\n        return self._acks\n\n    @acks.setter\n    def acks(self, val):\n"
+                "        self._acks = tuple(sorted(set(val)))\n\n    @property\n    def extra(self) -> bytes:\n"}]},
+    {"name": "P R7 Message.acks becomes a property that keeps a tuple", "expect": "silent", "edits": [
+        {"file": MSG, "old": '__slots__ = ("name", "send_flags", "packet_id", "acks",', "new": '__slots__ = ("name", "send_flags", "packet_id", "_acks",'},
+        {"file": MSG, "old": "    @property\n    def extra(self) -> bytes:\n",
+         "new": "    @property\n    def acks(self):\n        return self._acks\n\n    @acks.setter\n    def acks(self, val):\n"
+                "        self._acks = tuple(val)\n\n    @property\n    def extra(self) -> bytes:\n"}]},
+    {"name": "P R2 raw body dropped through a method of the message", "expect": "silent", "edits": [
+        {"file": DES, "old": "        msg.raw_body = None\n        msg.deserializer = None\n\n        try:", "new": "        msg.forget_wire_form()\n\n        try:"},
+        {"file": MSG, "old": "    def create_block_list(self, block_name: str):\n",
+         "new": "    def forget_wire_form(self):\n        self.raw_body = None\n        self.deserializer = None\n\n"
+                "    def create_block_list(self, block_name: str):\n"}]},
+    {"name": "P R4 terminator and packer constants named", "expect": "silent", "edits": [
+        {"file": DES, "old": "LOG = getLogger('message.udpdeserializer')\n", "new": "LOG = getLogger('message.udpdeserializer')\n_NUL = b\"\\x00\"\n"},
+        {"file": DES, "old": r'if unpacked_data.endswith(b"\x00"):', "new": "if unpacked_data.endswith(_NUL):"}]},
+    {"name": "P R6 leading components picked by a shared module helper", "expect": "silent", "edits": [
+        {"file": PACK, "old": "            if isinstance(x, TupleCoord):\n                x = x.data()\n            return struct_obj.pack(*x[:needed_elems])",
+         "new": "            return struct_obj.pack(*_first(x, needed_elems))"},
+        {"file": PACK, "old": "def _make_tuplecoord_spec(",
+         "new": "def _first(x, n):\n    if isinstance(x, TupleCoord):\n        x = x.data()\n    return x[:n]\n\n\ndef _make_tuplecoord_spec("}]},
     # ------------------------------------------------------------------ R5 breaking
     {"name": "R5 writer skips on truthiness", "file": SER, "expect": "C02.R5",
      "old": "if block_list is None:", "new": "if not block_list:"},
